@@ -9,7 +9,25 @@ use srtla_send::sender::verif_hooks::process_uplink_packet;
 use crate::shellutil::*;
 use crate::util::*;
 
-const MAXD: usize = 24;
+/// Longest datagram drawn.  Build-time knob (`VERIF_C09_MAXD`, default 12; the thorough tier uses 24 so that the
+/// 20-byte SRT ACK layout is inside the bound).  The smallvec model capacity (`VERIF_SV_CAP`) must be >= MAXD.
+const MAXD: usize = parse_usize(option_env!("VERIF_C09_MAXD"), 12);
+
+const fn parse_usize(s: Option<&str>, default: usize) -> usize {
+    match s {
+        None => default,
+        Some(s) => {
+            let b = s.as_bytes();
+            let mut i = 0;
+            let mut v = 0usize;
+            while i < b.len() {
+                v = v * 10 + (b[i] - b'0') as usize;
+                i += 1;
+            }
+            v
+        }
+    }
+}
 
 fn be16(b: &[u8]) -> u16 {
     ((b[0] as u16) << 8) | b[1] as u16
@@ -60,6 +78,11 @@ fn uplink_datagram<const TY: u16>() {
     set_clock(now);
     let mut conn = any_conn(1, SYM_INT);
     conn.rtt.waiting_for_keepalive_response = kani::any();
+    // representation invariant: a warming link has collected fewer probes than the (small) promotion threshold -
+    // reaching it promotes the link to Live; a pre-state with billions of probes is unreachable
+    if let LinkPhase::Warming { rtt_probes, .. } = conn.vh_phase() {
+        kani::assume(*rtt_probes <= 1_000_000);
+    }
     let mut reg = any_manager();
     let idx: usize = kani::any();
     kani::assume(idx < 3);
@@ -99,7 +122,7 @@ fn uplink_datagram<const TY: u16>() {
     let waiting0 = conn.rtt.waiting_for_keepalive_response;
     unsafe { INSTANT_SENDS = 0 };
 
-    let inc = kani::block_on(process_uplink_packet(&mut conn, idx, &mut reg, fake_socket(&sock), fake_sender(&tx), client_addr, data));
+    let inc = poll_once(process_uplink_packet(&mut conn, idx, &mut reg, fake_socket(&sock), fake_sender(&tx), client_addr, data));
     assert!(inc.is_ok(), "processing an arbitrary datagram never fails");
     let inc = inc.unwrap();
 
@@ -172,14 +195,14 @@ fn uplink_datagram<const TY: u16>() {
         assert!(ty == Some(0x9211), "an immediate REG1 only answers REG_NGP");
     }
     let _ = lr0;
-    kani::cover!(TY != 0x8002 || (inc.forward_to_client.len() == 1 && len == 24), "SRT ACK relayed");
+    kani::cover!(TY != 0x8002 || (inc.forward_to_client.len() == 1 && len == MAXD), "SRT ACK relayed");
     kani::cover!(TY != 0x8003 || inc.nak_numbers.len() >= 3, "NAK list parsed and relayed");
     kani::cover!(TY != 0x9000 || (conn.last_ack_or_rtt_sample_ms == now && proof0 != now), "keepalive echo accepted as proof");
     kani::cover!(TY != 0x9202 || !connected0, "REG3 connects");
     kani::cover!(TY != 1 || len == 1, "one-byte datagram");
     kani::cover!(TY != 0 || (ty == Some(0x1234) && len == 2), "two-byte unknown type relayed");
     kani::cover!(TY != 0 || (len >= 4 && buf[0] & 0x80 == 0 && inc.forward_to_client.len() == 1), "SRT data packet from the receiver relayed");
-    kani::cover!(TY != 0x9201 || len == 24, "REG2 consumed at any length");
+    kani::cover!(TY != 0x9201 || len == MAXD, "REG2 consumed at any length");
     core::mem::forget(inc);
     core::mem::forget(conn);
     core::mem::forget(reg);
